@@ -200,6 +200,8 @@ def ltf_plan(**args):
         nseg = int(round_half_up((N - dftlen) / (xov * dftlen) + 1))
         if nseg == 1:
             dftlen = N
+        # At most N - L + 1 distinct segment positions exist
+        nseg = min(nseg, N - dftlen + 1)
 
         fres = fs / dftlen
         fbin = fi / fres
@@ -219,6 +221,7 @@ def ltf_plan(**args):
         L_j = int(L_arr[j])
         L_arr[j] = L_j
         averages = int(round_half_up(((N - L_j) / (1 - olap)) / L_j + 1))
+        averages = min(averages, N - L_j + 1)
         navg_arr.append(averages)
 
         if averages == 1:
@@ -337,6 +340,8 @@ def vectorized_ltf_plan(**args):
     r_map = fs / L_grid
     K_map = np.round((N - L_grid) / (xov * L_grid) + 1).astype(np.int64)
     L_map = L_grid.astype(np.int64)
+    # At most N - L + 1 distinct segment positions exist
+    K_map = np.minimum(K_map, N - L_map + 1)
 
     # --- Phase 2: Walk the map ---
     f_out, r_out, L_out, K_out = [], [], [], []
@@ -470,6 +475,8 @@ def new_ltf_plan(**args):
 
     # --- 4. Finalize and Post-process (Vectorized) ---
     f, r, b, L, K = np.array(f), np.array(r), np.array(b), np.array(L), np.array(K)
+    # At most N - L + 1 distinct segment positions exist
+    K = np.minimum(K, N - L + 1)
     nf = len(f)
     
     shift = np.divide(N - L, K - 1, out=np.zeros_like(f, dtype=float), where=K > 1)
